@@ -142,9 +142,36 @@ def run(ctx):
                "searching an unsorted array (or one sorted by a different order, e.g. signed) misses a hazard that is present: the protected node is freed")
     qs = sc.calls("qsort")
     bs = sc.calls("binary_search")
+    libc_bs = sc.calls("bsearch")
     bad = None
-    if len(qs) != 1 or not bs:
+    if len(qs) == 1 and not bs and libc_bs:
+        # the search is libc's bsearch: same array, count, element size and comparator as the sort, and -- the elements being pointers --
+        # the key must be the ADDRESS of a pointer holding the node (bsearch hands the comparator `key` and `&base[i]`)
+        q = sc.args(qs[0])
+        for b in libc_bs:
+            a = sc.args(b)
+            if sc.dominated_by(b, nodeset(qs)) is not None:
+                bad = bad or "bsearch is reachable before the sort"
+            if len(a) != 5:
+                bad = bad or "bsearch arguments"
+                continue
+            if sc.key(a[1], True) != sc.key(q[0], True) or sc.key(a[2], True) != sc.key(q[1], True):
+                bad = bad or "bsearch searches another array / count than the one that was sorted"
+            if a[3].cv != q[2].cv or sc.key(a[4], True) != sc.key(q[3], True):
+                bad = bad or "bsearch uses another element size / comparator than the sort"
+            k0 = strip(a[0])
+            if not (k0 is not None and k0.k == "UnaryOperator" and k0.op == "&"):
+                bad = bad or ("the bsearch key `%s` is the node itself, not the address of a pointer to it: the comparator dereferences the key, so it "
+                              "compares the node's first word (its `next` link) with the hazard pointers" % a[0].text)
+        bs = libc_bs
+        if bad:
+            o.fail(bad, site=libc_bs[0], construct="scan sort/search")
+        else:
+            o.ok("qsort + bsearch with matching arguments")
+    elif len(qs) != 1 or not bs:
         bad = "qsort / binary_search call missing"
+        o.fail(bad, site=sc.loc, construct="scan sort/search")
+        bs = bs or libc_bs
     else:
         for b in bs:
             if sc.dominated_by(b, nodeset(qs)) is not None:
@@ -207,7 +234,10 @@ def run(ctx):
                     continue
                 if bool(got) != (needle in arr):
                     bad = bad or "binary_search(%s, %#x) = %s" % ([hex(x) for x in arr], needle, got)
-    o.check(bad is None, "sort before search; comparator and search tables", bad, site=sc.loc, construct="scan sort/search")
+    if o.status is None:
+        o.check(bad is None, "sort before search; comparator and search tables", bad, site=sc.loc, construct="scan sort/search")
+    if not bs:
+        raise AnalysisBroken("hazard_pointer_scan: no search over the collected hazard pointers found")
 
     o = ctx.ob("scan.decide", sc, "a retired node is passed to its gc function exactly when the search did not find it; otherwise it is re-linked into the "
                "retired list and counted; the list and count are reset before the pass",
